@@ -65,7 +65,7 @@ EXC_REPRESENTATIVES: list[type] = [
 ]
 SPEC_NAMES = {
     "old", "pre", "bound", "result", "exc", "forall", "exists", "implies", "ite", "occ", "pm", "first", "isfirst", "nofirst", "flat",
-    "no_occ", "iff", "Resync", "rk", "view_lo", "view_hi", "view_of", "orempty", "same_object", "base", "tail", "isinf", "fin", "xreal", "unit", "empty_seq", "fn", "typeof", "isnone", "fresh_call", "arg", "defaulted",
+    "no_occ", "iff", "Resync", "rk", "view_lo", "view_hi", "view_of", "orempty", "same_object", "base", "tail", "isinf", "fin", "xreal", "unit", "empty_seq", "fn", "typeof", "isnone", "fresh_call", "arg", "defaulted", "val",
 }
 ALLOWED_EXTERNAL_CONST_MODULES = {"errno", "math", "selectors", "socket", "ssl", "sys", "os"}
 
